@@ -80,6 +80,9 @@ EXPRS = [
     "T<1> {}", "T<(1 > 2)>::q", "operator+", "this->x", "typename X::template Y<Z>::type(1)", "a = b", "a += 1", "1 + (2 * (3 - (4 / 5)))",
     "0xDE'AD'BEEF", "0x1'0000'0000ull + 0b1'01 + 0'17",
 ] + REQ_EXPRS
+# token texts written down by hand where the expression exists to pin the lexing of one literal (everything else: lexed alone)
+EXPECT_TOKENS = {"0xDE'AD'BEEF": ["0xDE'AD'BEEF"], "0x1'0000'0000ull + 0b1'01 + 0'17": ["0x1'0000'0000ull", "+", "0b1'01", "+", "0'17"],
+                 "0x1fULL": ["0x1fULL"], "1'000": ["1'000"], "u8\"x\"": ["u8\"x\""], "\"s\" \"t\"": ["\"s\"", "\"t\""], "f(\"}\", '{')": ["f", "(", "\"}\"", ",", "'{'", ")"]}
 # expressions that are out of the property's scope in some positions (C++ itself makes them something else there)
 def applicable(pos, expr, toks):
     name = pos[0]
@@ -115,7 +118,7 @@ def judge(pos, expr):
     from cxxheaderparser.errors import CxxParseError
 
     name, tmpl, extract, (pre, post) = pos
-    want = pre + lex_values(expr) + post
+    want = pre + (EXPECT_TOKENS.get(expr) or lex_values(expr)) + post
     src = tmpl.format(E=expr)
     try:
         d = parse_string(src)
